@@ -9,11 +9,13 @@ import PestTyped.Model.Tokens
 import PestTyped.Model.Gen
 import PestTyped.Model.Spec
 import PestTyped.Model.GenOpts
+import PestTyped.Model.Message
 import Driver.Sexp
 import Driver.Text
 import Driver.Acc
 import Driver.Getters
 import Driver.WF
+import Driver.TGen
 open PestTyped
 namespace Driver
 
@@ -194,6 +196,13 @@ def uniTable : Uni := fun _ _ => false
 def fuelFor (g : NodeGrammar) (input : List Char) : Nat :=
   4 * (input.length + 2) * (g.rules.length + 2) + 40
 
+/-- C10: the rendered report of a failing case (`Tracker::collect`): `msg=` hex of the message,
+`lc=` line:column of the error (`Model/Message.lean`); `input` is the whole input string. -/
+def showReport (g : NodeGrammar) (input : List Char) (t : Tracker) : String :=
+  match Message.collect (fun r => (ruleName g r).toList) input t with
+  | .panic => "\tmsg=panic\tlc=panic"
+  | .ok (msg, (l, c)) => "\tmsg=" ++ hex msg ++ "\tlc=" ++ toString l ++ ":" ++ toString c
+
 def runCase (ge : GrammarEntry) (rule entry form : String) (a b : Nat) (input : List Char) : String :=
   let g := ge.ng
   match g.rules.findIdx? (·.name = rule) with
@@ -213,22 +222,22 @@ def runCase (ge : GrammarEntry) (rule entry form : String) (a b : Nat) (input : 
           | .ok i' S => "\tspec=ok:" ++ toString i'.pos ++ ":" ++ showStack S
       (match tryParsePartial g uniTable fuel r i with
       | .oof => "v=oof"
-      | .fail m => "v=fail" ++ showM m
+      | .fail m => "v=fail" ++ showM m ++ showReport g input m.trk
       | .ok i' m v => "v=ok\tend=" ++ toString i'.pos ++ showM m ++ "\ttok=" ++ showTokens g (tokens g v)) ++ specOut
     | "check_partial" =>
       match tryCheckPartial g uniTable fuel r i with
       | .oof => "v=oof"
-      | .fail m => "v=fail" ++ showM m
+      | .fail m => "v=fail" ++ showM m ++ showReport g input m.trk
       | .ok i' m _ => "v=ok\tend=" ++ toString i'.pos ++ showM m
     | "parse" =>
       match tryParse g uniTable fuel r i with
       | .oof => "v=oof"
-      | .fail m => "v=fail" ++ showM m
+      | .fail m => "v=fail" ++ showM m ++ showReport g input m.trk
       | .ok _ m v => "v=ok" ++ showM m ++ "\ttok=" ++ showTokens g (tokens g v)
     | "check" =>
       match tryCheck g uniTable fuel r i with
       | .oof => "v=oof"
-      | .fail m => "v=fail" ++ showM m
+      | .fail m => "v=fail" ++ showM m ++ showReport g input m.trk
       | .ok _ m _ => "v=ok" ++ showM m
     | _ => "v=badentry"
 
@@ -267,6 +276,8 @@ partial def loop (h : IO.FS.Stream) (gs : List GrammarEntry) : IO Unit := do
   | "getters" :: mode :: gid :: which :: rest =>        -- accessor functions (C16): `getters list|run <gid> <opt|raw> …`
     IO.println (GetterCases.run mode ((gs.find? (·.gid = gid)).bind fun ge => if which = "raw" then ge.rawpg else ge.pg) rest)
   | "opts" :: bits :: rest => IO.println (runOpts gs bits rest)   -- option combinations (C20)
+  | ["tgen", o, gid] =>                                   -- T-gen (structure): the generated module as an S-expression, Driver/TGen.lean
+    IO.println (match gs.find? (·.gid = gid) with | some ge => TGen.run o gid ge.ng ge.pg ge.rawpg | none => "v=nogrammar")
   | "wf" :: gid :: rest =>                              -- static well-foundedness / theorem fuel (C11): Driver/WF.lean
     IO.println (match gs.find? (·.gid = gid) with | some ge => WF.command ge.ng rest | none => "v=nogrammar")
   | [gid, rule, entry, form, a, b, hx] =>
